@@ -183,7 +183,7 @@ pub fn run_one(scn: Scenario, tape: Tape, sched: Option<Vec<u32>>, seed: u64, ex
         let in_dep = loc.contains("heapless") || loc.contains("embassy") || loc.contains("serde") || loc.contains("/rustc/") || loc.contains("library/core") || loc.contains("library/alloc");
         if msg.contains("WATCHDOG") {
             let op = w.op_label;
-            w.violate("C16", format!("unbounded-loop-without-io/op={op}"), msg.clone());
+            w.violate_force("C16", format!("unbounded-loop-without-io/op={op}"), msg.clone());
         } else if in_client || in_dep {
             let short: String = msg.chars().take(60).map(|c| if c.is_ascii_digit() { '#' } else if c.is_ascii_alphanumeric() { c } else { '-' }).collect();
             let file = loc.rsplit('/').next().unwrap_or("").to_string();
@@ -195,7 +195,7 @@ pub fn run_one(scn: Scenario, tape: Tape, sched: Option<Vec<u32>>, seed: u64, ex
             } else {
                 "C16"
             };
-            w.violate(prop, format!("panic/{file}/{short}"), format!("client panicked at {loc}: {msg}"));
+            w.violate_force(prop, format!("panic/{file}/{short}"), format!("client panicked at {loc}: {msg}"));
         } else {
             harness_error = Some(format!("harness panic at {loc}: {msg}"));
         }
@@ -393,7 +393,7 @@ struct Agg {
     sim_time: u128,
     /// signature -> (count, first (scenario, seed, extra), violation)
     viol: BTreeMap<String, (u64, Scenario, u64, u64, Violation)>,
-    others: BTreeMap<String, u64>,
+    others: BTreeMap<String, (u64, String, u64)>,
     harness_errors: Vec<String>,
     samples: Vec<Value>,
     per_scenario: BTreeMap<String, u64>,
@@ -435,7 +435,12 @@ fn merge(agg: &mut Agg, prop: &str, scn: Scenario, seed: u64, extra: u64, r: Run
         if v.prop == prop {
             agg.viol.entry(v.sig.clone()).and_modify(|e| e.0 += 1).or_insert((1, scn, seed, extra, v));
         } else {
-            *agg.others.entry(v.sig).or_insert(0) += 1;
+            let e = agg.others.entry(v.sig).or_insert((0, scn.name(), seed));
+            e.0 += 1;
+            if (scn.name(), seed) < (e.1.clone(), e.2) {
+                e.1 = scn.name();
+                e.2 = seed;
+            }
         }
     }
 }
@@ -531,7 +536,18 @@ fn check(prop: &str, tier: &str, seed: u64) -> i32 {
             }
         }
         for (k, v) in a.others {
-            *agg.others.entry(k).or_insert(0) += v;
+            match agg.others.get_mut(&k) {
+                Some(e) => {
+                    e.0 += v.0;
+                    if (v.1.clone(), v.2) < (e.1.clone(), e.2) {
+                        e.1 = v.1;
+                        e.2 = v.2;
+                    }
+                }
+                None => {
+                    agg.others.insert(k, v);
+                }
+            }
         }
         agg.harness_errors.extend(a.harness_errors);
     }
@@ -595,6 +611,16 @@ fn check(prop: &str, tier: &str, seed: u64) -> i32 {
     for z in &zero_probes {
         println!("warning: reach probe '{}' stayed at zero", z);
     }
+    // observations that belong to other properties: not judged here, but recorded with a
+    // reproducing seed; one that is not a listed finding of its own property is worth a look
+    let mut cross: BTreeMap<String, Value> = BTreeMap::new();
+    for (k, v) in agg.others.iter() {
+        let listed = known.iter().any(|kf| kf.status == "open" && kf.signature == *k);
+        if !listed {
+            println!("note: observation outside this property, not a listed finding: {} ({} runs, first {} seed={})", k, v.0, v.1, v.2);
+        }
+        cross.insert(k.clone(), json!({"runs": v.0, "first": format!("{} seed={}", v.1, v.2), "listed_finding_of_its_property": listed}));
+    }
     let ev = json!({
         "property_id": prop,
         "tier": tier,
@@ -627,7 +653,7 @@ fn check(prop: &str, tier: &str, seed: u64) -> i32 {
             },
             "known_findings_seen": known_seen,
             "violations_reported": new_viol,
-            "cross_property_observations": agg.others,
+            "cross_property_observations": cross,
         },
         "assumptions": plan.assumptions,
         "wall_s": wall,
